@@ -18,8 +18,9 @@ Two layers, both executable, core Lean only.
   (`methods/collections/*.py`) as `step`.
 
 Elements are Python values of a small universe: ints, strs and instances of
-two spec classes (an unkeyed one with fields `b : str`, `a : int`, and a keyed
-one with `key : str`, `a : int`); both are written `rec keyed k a`.
+three spec classes: an unkeyed one with fields `b : str`, `a : int`
+(`obj false (.s b) a`), one keyed by `key : str` (`obj true (.s key) a`) and one
+keyed by `key : int` (`obj true (.i key) a`), each with a second field `a : int`.
 `KeyedList` is the C13 model; a `KeyedSet` is modelled here by its `_dict`.
 -/
 namespace SpecVerif.C06
@@ -27,21 +28,30 @@ open SpecVerif.Py
 
 /-! ## Values, item types, attribute configuration -/
 
+/-- the first field of a spec-class element: a str (`b` / `key`) or an int (`key`) -/
+inductive Key
+  | s (s : String)
+  | i (n : Int)
+  deriving DecidableEq, Repr, Inhabited
+
 inductive Val
   | int (n : Int)
   | str (s : String)
-  | rec (keyed : Bool) (k : String) (a : Int)
+  | obj (keyed : Bool) (k : Key) (a : Int)
   deriving DecidableEq, Repr, Inhabited
 
-inductive ItemTy | int | str | spec | kspec
+/-- element types: `int`, `str`, the unkeyed spec class, the str-keyed and the
+int-keyed spec class -/
+inductive ItemTy | int | str | spec | kspec | ikspec
   deriving DecidableEq, Repr
 
 /-- `check_type(v, item_type)` -/
 def okItem : ItemTy → Val → Bool
   | .int, .int _ => true
   | .str, .str _ => true
-  | .spec, .rec false _ _ => true
-  | .kspec, .rec true _ _ => true
+  | .spec, .obj false (.s _) _ => true
+  | .kspec, .obj true (.s _) _ => true
+  | .ikspec, .obj true (.i _) _ => true
   | _, _ => false
 
 inductive Family | list | dict | set | klist | kset
@@ -81,7 +91,7 @@ def pySetAdd (xs : List Val) (x : Val) : List Val := if xs.contains x then xs el
 /-- keyword arguments `key=/b=` and `a=` of the helpers of spec-class elements
 (`none` = not passed). -/
 structure Attrs where
-  k : Option String := none
+  k : Option Key := none
   a : Option Int := none
   deriving DecidableEq, Repr
 
@@ -89,7 +99,7 @@ def Attrs.isEmpty (x : Attrs) : Bool := x.k.isNone && x.a.isNone
 
 /-- keyword *transforms* of `transform_<singular>`. -/
 structure AttrTfs where
-  k : Option (String → String) := none
+  k : Option (Key → Key) := none
   a : Option (Int → Int) := none
 
 /-- `CollectionAttrMutator.prepare_item`: item preparer, then promotion of a
@@ -100,14 +110,25 @@ def prepareItem (c : AttrCfg) (v : Option Val) : Option Val :=
   | some x =>
     let y := match c.prep with | some p => p x | none => x
     match y with
-    | .str s => if c.item = .kspec then some (.rec true s 0) else some (.str s)
+    | .str s => if c.item = .kspec then some (.obj true (.s s) 0) else some (.str s)
+    | .int n => if c.item = .ikspec then some (.obj true (.i n) 0) else some (.int n)
     | y => some y
 
-/-- `setattr(value, attr, v)` for every passed keyword (step 5 of `mutate_value`). -/
+/-- a str / an int -/
+def Key.isStr : Key → Bool
+  | .s _ => true
+  | .i _ => false
+
+/-- `setattr(value, attr, v)` for every passed keyword (step 5 of `mutate_value`);
+the spec class type-checks the assignment (`key=`/`b=` must keep its declared
+type: TypeError). -/
 def applyAttrs (v : Val) (at_ : Attrs) : Except Err Val :=
   if at_.isEmpty then .ok v else
   match v with
-  | .rec kd k a => .ok (.rec kd (at_.k.getD k) (at_.a.getD a))
+  | .obj kd k a =>
+    match at_.k with
+    | some k' => if k'.isStr == k.isStr then .ok (.obj kd k' (at_.a.getD a)) else .error .typeError
+    | none => .ok (.obj kd k (at_.a.getD a))
   | _ => .error .attributeError
 
 /-- step 4 of `mutate_value`: `constructor(**attrs)` (`int()`, `str()`, or the
@@ -115,11 +136,18 @@ spec class, whose key is a required argument). -/
 def construct : ItemTy → Attrs → Except Err Val
   | .int, at_ => applyAttrs (.int 0) at_
   | .str, at_ => applyAttrs (.str "") at_
-  | .spec, at_ => .ok (.rec false (at_.k.getD "") (at_.a.getD 0))
+  | .spec, at_ =>
+    match at_.k with
+    | none => .ok (.obj false (.s "") (at_.a.getD 0))
+    | some k => if k.isStr then .ok (.obj false k (at_.a.getD 0)) else .error .typeError
   | .kspec, at_ =>
     match at_.k with
     | none => .error .typeError
-    | some k => .ok (.rec true k (at_.a.getD 0))
+    | some k => if k.isStr then .ok (.obj true k (at_.a.getD 0)) else .error .typeError
+  | .ikspec, at_ =>
+    match at_.k with
+    | none => .error .typeError
+    | some k => if k.isStr then .error .typeError else .ok (.obj true k (at_.a.getD 0))
 
 /-- step 7 of `mutate_value`. -/
 def applyAttrTfs (v : Val) (tf : AttrTfs) : Except Err Val :=
@@ -127,8 +155,8 @@ def applyAttrTfs (v : Val) (tf : AttrTfs) : Except Err Val :=
   | none, none => .ok v
   | fk, fa =>
     match v with
-    | .rec kd k a =>
-      .ok (.rec kd (match fk with | some f => f k | none => k) (match fa with | some f => f a | none => a))
+    | .obj kd k a =>
+      .ok (.obj kd (match fk with | some f => f k | none => k) (match fa with | some f => f a | none => a))
     | _ => .error .attributeError
 
 /-- `mutate_value(old_value=old, new_value=new, prepare=self.prepare_item, attrs=…,
@@ -150,12 +178,18 @@ def mutateItem (c : AttrCfg) (old new : Option Val) (replace : Bool) (at_ : Attr
 
 /-- `KeyedBase.key` on the element universe. -/
 def keyOf : Val → Val
-  | .rec true k _ => .str k
+  | .obj true (.s k) _ => .str k
+  | .obj true (.i n) _ => .int n
   | v => v
 
-/-- the `KeyedList[KS, str]` / `KeyedSet[KS, str]` configuration for C13's model. -/
+/-- `_validate_item` of a `KeyedList[KS, str]` / `KeyedList[KI, int]` (and of the
+keyed sets): the mutator's `_inserter` has already checked the precise element
+type, so the container-level check only has to tell keyed elements from others. -/
+def keyedOk (v : Val) : Bool := okItem .kspec v || okItem .ikspec v
+
+/-- the KeyedList configuration for C13's model. -/
 def klCfg : C13.Cfg Val Val :=
-  { key := keyOf, okItem := fun v => okItem .kspec v, asKey := fun _ => none }
+  { key := keyOf, okItem := keyedOk, asKey := fun _ => none }
 
 inductive SeqC
   | plain (xs : List Val)
@@ -299,10 +333,16 @@ def seqRemoveItem (c : AttrCfg) (s : SeqC) (voi : Val) (byIndex : Option Bool) :
 def mapExtractor (d : PyDict) (k : Val) (raiseIfMissing : Bool) : Except Err (Val × Option Val) :=
   if raiseIfMissing && !pyDictHas d k then .error .keyError else .ok (k, pyDictGet d k)
 
+/-- `len(type_args) == 2 and not check_type(index, type_args[0])` -/
+def keyBad (c : AttrCfg) (k : Val) : Bool :=
+  match c.keyTy with
+  | some t => !okItem t k
+  | none => false
+
 /-- `MappingMutator._inserter` (value type, then key type, then `d[k] = item`) -/
 def mapInserter (c : AttrCfg) (d : PyDict) (k : Val) (item : Val) : Except Err PyDict :=
   if !okItem c.item item then .error .valueError
-  else if (match c.keyTy with | some t => !okItem t k | none => false) then .error .valueError
+  else if keyBad c k then .error .valueError
   else .ok (pyDictSet d k item)
 
 /-- `MappingMutator.add_item` -/
@@ -365,7 +405,7 @@ def setDiscard : SetC → Val → SetC
 def setAdd : SetC → Val → Except Err SetC
   | .plain xs, x => .ok (.plain (pySetAdd xs x))
   | .keyed d, x =>
-    if !okItem .kspec x then .error .typeError else .ok (.keyed (pyDictSet d (keyOf x) x))
+    if !keyedOk x then .error .typeError else .ok (.keyed (pyDictSet d (keyOf x) x))
 
 /-- `self.collection.remove(v)` -/
 def setRemove (s : SetC) (v : Val) : Except Err SetC :=
